@@ -1,14 +1,37 @@
-"""texts of MANIFEST.json (per property)"""
+"""texts of MANIFEST.json (per property).  A property is claimed when it has an entry in TEXT
+and Properties/<id>.v exists; everything else is listed under not_applicable with its reason."""
 HOOK_COMMITS = ["e006dbb"]
 
-WIP = "not claimed yet in this revision: model, harness and correspondence cover it, the property theorems are still being written (see DESIGN.md section 10)"
+WIP = ("not claimed in this revision: the model, the harness, the correspondence and the monitor cover it, "
+       "but no property theorem about it has been proved yet, so the proof technique does not decide it (see DESIGN.md section 6)")
 NOT_CLAIMED = {("C%02d" % i): WIP for i in range(1, 19)}
 
+TECH = "machine-checked proof in Coq 8.16 (invariants by induction over operations of an executable Gallina model) + model/implementation correspondence (extracted model vs. real crate on generated histories) + extracted monitor evaluated on the implementation's traces"
+TRUST = ("trusted: Coq kernel (coqc; coqchk in the thorough tier); the hand-written Gallina model as a rendering of the Rust code, tied by the sampled correspondence only; "
+         "extraction (ExtrOcamlBasic) + OCaml driver; Rust harness and hooks; calibrated parameters (Calib.v); dependencies (diatomic-waker, cordyceps, spin, alloc) modelled sequentially, not verified")
+
+def T(level, ref, note=""):
+    return {"level": level, "design_ref": ref, "note": (note + " " if note else "") + TRUST, "technique": TECH}
+
 TEXT = {
-    "C03": {
-        "level": "Coq theorems: release/acquire side condition => every owner's accesses happen-before the deallocation (for any number of owners, with a refutation when the condition fails), instantiated on every run with the orderings found in src/waker_list.rs; the reference-count protocol of the model is exercised against the real crate (block alloc/free/vtable probes, allocator quarantine) on sampled histories. Partial: real data races under the C11 memory model inside the dependencies and pointer provenance are outside the model.",
-        "design_ref": "DESIGN.md 6 (C03), 8",
-        "note": "trusted: Coq kernel; Orderings.v as rendering of the C11 rules; regex extraction of the orderings; harness + probes; sequential consistency elsewhere",
-        "technique": "Coq proof (happens-before argument, refcount invariant) + model/implementation correspondence",
-    },
+    "C01": T("Theorems (all histories, scripts, capacities, injection points; atomic wakes at every race window of a poll): a poll of a group that returns Pending has registered the caller's waker as the most recent one and ends with an empty ready queue or with that waker invoked during the call; every waker action preserves this; a wake of an unqueued slot queues it and notifies the most recently registered task waker; flag <-> queued and registered = latest hold in every reachable state; the group loop of the unbounded collections returns Pending only while something is held. Partial: sequential consistency and atomic wake calls (no sub-call interleavings, no weak memory); the per-group statement is not yet lifted to 'every non-empty group was polled' for the unbounded collections.",
+             "DESIGN.md 6 (C01)", "partial: Level A only."),
+    "C02": T("Theorems: for FUB / FU / FOB / FO a poll that yields removes exactly one held future (its slot is vacant afterwards), None is returned iff nothing is held (and then nothing changes), Pending only while something is held with the held count unchanged; pushes add exactly one; the group loop never discards a group holding a future; the structural invariant holds in every reachable state and no unreachable arm / fuel exhaustion is ever hit. Count level; identity-level 'exactly once' relies on the slot-map theorems (a yielded future's slot is vacated in the same call).",
+             "DESIGN.md 6 (C02)"),
+    "C03": T("Theorems: in every reachable state the count of every waker block = the collection's references + live cloned wakers pointing to it, released iff 0; a live handle never points to a released block; no operation of any history touches a released block (EVtBad never emitted); no leak once collection and handles are gone; release/acquire side condition => every owner's accesses happen-before the deallocation, instantiated on every run with the orderings found in src/waker_list.rs. Partial: data races under the real C11 memory model inside the dependencies, pointer provenance and layout arithmetic are outside these theorems (layout is compared by probe only).",
+             "DESIGN.md 6 (C03), 8", "partial: sequentially consistent interleaving of atomic waker actions; Orderings.v is my rendering of the C11 rules."),
+    "C09": T("Theorems: in every reachable state of every adapter history running <= pulled-but-unyielded <= n; the fill loop pulls only while there is room, never pushes into a full queue, never runs out of fuel. The work-conservation clause (Pending => saturated or upstream ended/pending) is checked by the extracted monitor on implementation traces, not yet by a theorem.",
+             "DESIGN.md 6 (C09)", "partial: work conservation is monitor-only."),
+    "C11": T("Theorems: MergeBounded returns None iff no source is left, Pending / an item only while one is left, removes an ended source in the call that observed its end, its retry loop never runs out of fuel; MergeUnbounded returns None iff no live source in any group and Pending only while one is live (the end-of-loop check of the fix). The multiset-union / per-source-order clause is by construction of the model (an item is returned by the call that produced it) and checked by the monitor on implementation traces.",
+             "DESIGN.md 6 (C11)", "partial: union/order clause is monitor + correspondence."),
+    "C12": T("Theorems: in every reachable state child polls + queued entries <= enqueues <= accepted pushes + child-waker invocations + merge items (so total child polls <= pushes + wakes + items over any history); a slot is queued at most once and a wake of a queued slot changes nothing; every child poll of the drain loop is paid for by a dequeued entry.",
+             "DESIGN.md 6 (C12)"),
+    "C13": T("Theorems: one call of the bounded core polls at most B children (B calibrated, proved for every B >= 1); a call that stops early has woken its task; the group loop terminates, accounts for every group and (with the cursor fix) moves on after every yield. The starvation bound (b: polled within O(held) collection polls) is checked by the extracted monitor on implementation traces, not yet by a theorem.",
+             "DESIGN.md 6 (C13)", "partial: clause (b) is monitor-only."),
+    "C15": T("Theorems: every constructor succeeds for every capacity (0 included); the slot map refuses an insert iff it is full and its unreachable arm is never taken; a bounded push is accepted iff fewer than n are held, adds exactly one, leaves the capacity unchanged, and on refusal changes nothing at all (position counters of the ordered queue included); in every reachable state len = number of held futures <= capacity, and FuturesUnordered's counter equals the number held in all groups.",
+             "DESIGN.md 6 (C15)"),
+    "C16": T("Theorem: in every reachable state of every buffered_ordered / try_buffered_ordered history running + parked <= n (after the fix: commit ecb930c); one adapter poll keeps the bound whatever upstream and futures do.",
+             "DESIGN.md 6 (C16)"),
+    "C18": T("Theorems: for FUB, MergeBounded, buffered_unordered / try_buffered_unordered, for_each_concurrent, join_all / try_join_all every operation after construction leaves the per-operation allocation counter of the model at 0, for every history. That a Rust expression allocates is observed (counting allocator in the harness, impl <= model per operation), not derived; the logarithmic bound for the unbounded collections is checked by the extracted monitor only.",
+             "DESIGN.md 6 (C18)", "partial: allocation is an annotation of the model tied by observation; unbounded bound is monitor-only."),
 }
